@@ -1,39 +1,41 @@
 /-
   C08 — Arrays are immutable: no operation changes an existing array's values or shape.
 -/
-import CorgiModel.Step
+import CorgiProofs.Frame
 
 set_option linter.unusedSectionVars false
 
 namespace Corgi
 variable {S : Type} [Add S] [Mul S] [Neg S] [Sub S] [ScalarOps S] [BEq S]
 
-/-- `σ'` extends `σ`: every existing buffer is still there, unchanged. -/
-def BufExt (σ σ' : State S) : Prop := ∀ i, i < σ.bufs.size → σ'.bufs[i]? = σ.bufs[i]?
+/-- **Every command.**  Whatever the command (construction, any forward operation, flag setters,
+    clone / drop / re-bind, a backward pass with its gradient accumulation, gradient fetch / clear /
+    set, optimizer and model updates, layer and model forwards, …) and whatever the state: every
+    buffer that existed before still exists afterwards with the same content. -/
+theorem C08_step (σ : State S) (c : Cmd S) : BufExt σ (step σ c).1 := step_bufExt σ c
 
-theorem BufExt.refl (σ : State S) : BufExt σ σ := fun _ _ => rfl
-theorem BufExt.trans {a b c : State S} (h1 : BufExt a b) (h2 : BufExt b c) : BufExt a c := by
-  intro i hi
-  have hb : i < b.bufs.size := by
-    have := h1 i hi
-    rcases Nat.lt_or_ge i b.bufs.size with h | h
-    · exact h
-    · rw [Array.getElem?_eq_none h] at this
-      rw [Array.getElem?_eq_getElem hi] at this
-      cases this
-  rw [h2 i hb, h1 i hi]
+/-- **Every history.** -/
+theorem C08_history (cs : List (Cmd S)) (σ : State S) : BufExt σ (cs.foldl (fun s c => (step s c).1) σ) :=
+  run_bufExt cs σ
 
-/-- Allocating a result appends one buffer and never rewrites an existing one. -/
-theorem C08_alloc (σ : State S) (t : Tensor S) (kids : List Handle) (tag : Option (OpTag S)) (attach : Bool)
-    (label : String) : BufExt σ (σ.alloc t kids tag attach label).1 := by
-  intro i hi
-  simp only [State.alloc]
-  rw [Array.getElem?_push_lt hi]
-  exact (Array.getElem?_eq_getElem hi).symm
+/-- A handle is a value `(dims, buffer id, …)`: what it denotes depends on its dimensions and on the
+    content of its buffer only.  So every handle that was valid before — a live name, a clone, a
+    reshaped view, an operand recorded inside a graph, a previously fetched gradient — denotes the
+    same dimensions and values after any command and after any history. -/
+theorem C08_handle_stable (σ σ' : State S) (h : Handle) (hext : BufExt σ σ') (hb : h.buf < σ.bufs.size) :
+    σ'.tensorOf h = σ.tensorOf h := by
+  simp only [State.tensorOf]
+  have := hext h.buf hb
+  simp [Array.getD_eq_getD_getElem?, this]
 
-/-- A reshaped view adds no buffer at all. -/
-theorem C08_view (σ : State S) (dims : List Nat) (buf : Nat) (kids : List Handle) (tag : Option (OpTag S))
-    (attach : Bool) : (σ.allocView dims buf kids tag attach).1.bufs = σ.bufs := rfl
+theorem C08_immutable (cs : List (Cmd S)) (σ : State S) (h : Handle) (hb : h.buf < σ.bufs.size) :
+    (cs.foldl (fun s c => (step s c).1) σ).tensorOf h = σ.tensorOf h :=
+  C08_handle_stable σ _ h (C08_history cs σ) hb
+
+/-- `GradientDescent::update` replaces parameters by **new** arrays: the buffers of the old
+    parameters are unchanged, so every older handle still sees the old values. -/
+theorem C08_update_fresh (σ σ' : State S) (lr : S) (ps hs : List Handle)
+    (h : gdUpdate σ lr ps = .ok (σ', hs)) : BufExt σ σ' := bufExt_gdUpdate σ σ' lr ps hs h
 
 /-- A backward pass, with its gradient accumulation, touches no buffer, no handle and no node. -/
 theorem C08_backward (σ σ' : State S) (h : Handle) (seed : Option (Tensor S)) (hok : σ.backward h seed = .ok σ') :
@@ -43,78 +45,16 @@ theorem C08_backward (σ σ' : State S) (h : Handle) (seed : Option (Tensor S)) 
   | error e => simp [hb] at hok
   | ok e => simp only [hb, pure, Except.pure] at hok; cases hok; exact ⟨rfl, rfl⟩
 
-/-- Gradient reads, clears and sets touch no buffer. -/
-theorem C08_setGrad (σ : State S) (n : Nat) (g : Option (Tensor S)) : (σ.setGrad n g).bufs = σ.bufs := rfl
-
-/-- The value seen through a handle is a function of (dims, buffer id) and the buffer content only:
-    if the buffers of `σ` survive in `σ'`, every handle still denotes the same dimensions and values. -/
-theorem C08_handle_stable (σ σ' : State S) (h : Handle) (hext : BufExt σ σ') (hb : h.buf < σ.bufs.size) :
-    σ'.tensorOf h = σ.tensorOf h := by
-  simp only [State.tensorOf]
-  have := hext h.buf hb
-  simp [Array.getD_eq_getD_getElem?, this]
-
-/-- The optimizer: gathering touches no buffer; draining only allocates. -/
-theorem C08_gather (σ : State S) (ps : List Handle) : (gdGather σ ps).1.bufs = σ.bufs := by
-  induction ps generalizing σ with
-  | nil => rfl
-  | cons p ps ih =>
-    simp only [gdGather]
-    cases σ.grad.getD p.node none with
-    | none => simp [ih]
-    | some g => simp [ih, State.setGrad]
-
-theorem C08_drain (ps : List Handle) : ∀ (σ : State S) (fs : List Bool) (vals : List S) (σ' : State S) (hs : List Handle),
-    gdDrain σ ps fs vals = .ok (σ', hs) → BufExt σ σ' := by
-  induction ps with
-  | nil => intro σ fs vals σ' hs h; simp [gdDrain, pure, Except.pure] at h; rw [← h.1]; exact BufExt.refl _
-  | cons p ps ih =>
-    intro σ fs vals σ' hs h
-    cases fs with
-    | nil => simp [gdDrain, pure, Except.pure] at h; rw [← h.1]; exact BufExt.refl _
-    | cons f fs =>
-      cases f with
-      | true =>
-        simp only [gdDrain, if_true, bind, Except.bind] at h
-        cases hr : gdDrain σ ps fs vals with
-        | error e => simp [hr] at h
-        | ok r =>
-          have hx := ih σ fs vals r.1 r.2 (by rw [hr])
-          simp only [hr, pure, Except.pure, Except.ok.injEq, Prod.mk.injEq] at h
-          rw [← h.1]; exact hx
-      | false =>
-        simp only [gdDrain, Bool.false_eq_true, if_false, bind, Except.bind] at h
-        split at h
-        · simp [throw, throwThe, MonadExceptOf.throw] at h
-        · cases ht : Tensor.mk? p.dims (List.take (σ.tensorOf p).vals.length vals) with
-          | error e => simp [ht] at h
-          | ok t =>
-            simp only [ht] at h
-            cases hr : gdDrain (σ.alloc t [] none false).1 ps fs (List.drop (σ.tensorOf p).vals.length vals) with
-            | error e => simp [hr] at h
-            | ok r =>
-              simp only [hr, pure, Except.pure, Except.ok.injEq, Prod.mk.injEq] at h
-              rw [← h.1]
-              exact (C08_alloc σ t [] none false "").trans (ih _ _ _ r.1 r.2 (by rw [hr]))
-
-/-- `GradientDescent::update` replaces parameters by **new** arrays: every buffer that existed before
-    the update is unchanged, so every older handle (clones, views, graph operands) still sees the old
-    values. -/
-theorem C08_update_fresh (σ σ' : State S) (lr : S) (ps hs : List Handle)
-    (h : gdUpdate σ lr ps = .ok (σ', hs)) : BufExt σ σ' := by
-  unfold gdUpdate at h
-  have hg := C08_gather σ ps
-  have := C08_drain ps (gdGather σ ps).1 _ _ σ' hs h
-  intro i hi
-  rw [this i (by rw [hg]; exact hi), hg]
+/-- A reshaped view adds no buffer at all (it shares its source's). -/
+theorem C08_view (σ : State S) (dims : List Nat) (buf : Nat) (kids : List Handle) (tag : Option (OpTag S))
+    (attach : Bool) : (σ.allocView dims buf kids tag attach).1.bufs = σ.bufs := rfl
 
 end Corgi
 
-#print axioms Corgi.C08_alloc
-#print axioms Corgi.C08_view
-#print axioms Corgi.C08_backward
-#print axioms Corgi.C08_setGrad
+#print axioms Corgi.C08_step
+#print axioms Corgi.C08_history
 #print axioms Corgi.C08_handle_stable
-#print axioms Corgi.C08_gather
-#print axioms Corgi.C08_drain
+#print axioms Corgi.C08_immutable
 #print axioms Corgi.C08_update_fresh
+#print axioms Corgi.C08_backward
+#print axioms Corgi.C08_view
